@@ -24,6 +24,8 @@ the code for all inputs:
       by content (the smaller one, else the raising one, else the one under the positive test), not by the author
   N11 `X = []` followed by `for t in IT: X.append(E)` -> `X = [E for t in IT]` (also the if/else-append form -> a
       conditional expression as element)
+  N12 a parameterless local function that only returns an expression (or an if/else of such returns) and is only ever
+      called is inlined at its call sites
   N6  `t = E` immediately followed by `return t`, where every binding of the local t is such a pair and t is used
       nowhere else  -> `return E`
 
@@ -376,7 +378,72 @@ def _stmts(fn, localish, counts):
     fn.body = do_list(fn.body)
 
 
+def _closure_expr(g):
+    """the value expression of a parameterless local function whose body only returns: `return E`, or an if/else
+    (also in guard form) of such returns -> conditional expression; None if it is anything else"""
+    a = g.args
+    if a.posonlyargs or a.args or a.kwonlyargs or a.vararg or a.kwarg or g.decorator_list:
+        return None
+
+    def expr_of(body):
+        body = [st for st in body if not (isinstance(st, ast.Expr) and isinstance(st.value, ast.Constant) and isinstance(st.value.value, str))]
+        if len(body) == 1 and isinstance(body[0], ast.Return) and body[0].value is not None:
+            return body[0].value
+        if len(body) == 1 and isinstance(body[0], ast.If) and body[0].orelse:
+            x, y = expr_of(body[0].body), expr_of(body[0].orelse)
+            if x is not None and y is not None:
+                return ast.IfExp(test=body[0].test, body=x, orelse=y)
+        if len(body) >= 2 and isinstance(body[0], ast.If) and not body[0].orelse:
+            x, y = expr_of(body[0].body), expr_of(body[1:])
+            if x is not None and y is not None:
+                return ast.IfExp(test=body[0].test, body=x, orelse=y)
+        return None
+
+    e = expr_of(g.body)
+    if e is None or any(isinstance(n, (ast.Yield, ast.YieldFrom, ast.Await, ast.NamedExpr, ast.Lambda)) for n in ast.walk(e)):
+        return None
+    return e
+
+
+def _inline_closures(fn):
+    """N12: a parameterless local function that only returns an expression over the enclosing function's names, and is
+    only ever *called* (`g()`), is that expression evaluated at the call: free variables of a closure are read when it is
+    called, so substituting the body at each call site evaluates the same things at the same time."""
+    import copy as _copy
+
+    for g in [st for st in fn.body if isinstance(st, ast.FunctionDef)]:
+        e = _closure_expr(g)
+        if e is None:
+            continue
+        uses = [n for st in fn.body if st is not g for n in ast.walk(st) if isinstance(n, ast.Name) and n.id == g.name]
+        calls = [n for st in fn.body if st is not g for n in ast.walk(st) if isinstance(n, ast.Call) and isinstance(n.func, ast.Name) and n.func.id == g.name and not n.args and not n.keywords]
+        if not calls or len(uses) != len(calls):
+            continue
+        # names the closure would bind itself (none allowed: it has no statements but returns) - and no nested def may
+        # capture the calls (they would run later)
+        nested = [d for st in fn.body if st is not g for d in ast.walk(st) if isinstance(d, (ast.FunctionDef, ast.Lambda, ast.AsyncFunctionDef))]
+        if any(c is n for d in nested for n in ast.walk(d) for c in calls):
+            continue
+        ids = {id(c) for c in calls}
+
+        class R(ast.NodeTransformer):
+            def visit_Call(self, n):
+                self.generic_visit(n)
+                if id(n) in ids:
+                    return ast.copy_location(_copy.deepcopy(e), n)
+                return n
+
+        new_body = []
+        for st in fn.body:
+            if st is g:
+                continue
+            new_body.append(R().visit(st))
+        fn.body = new_body
+        ast.fix_missing_locations(fn)
+
+
 def normalise_function(fn):
+    _inline_closures(fn)
     a = fn.args
     params = {x.arg for x in a.posonlyargs + a.args + a.kwonlyargs}
     if a.vararg:
